@@ -385,6 +385,198 @@ def _pick_nuc(present, absent, rec):
     return absent[rec[0] % len(absent)], False
 
 
+STRUCT_OPS = ("adjustDensity", "setHeight", "setTemp", "setDim", "setPitch")
+_OUTER_DIMS = ("od", "op", "widthOuter", "lengthOuter", "base")
+
+
+def check_block_areas(out, tree, nodes, snap):
+    """Block.getArea() (hot; the cold flavour shares its cache key and is never asked) x height is the block volume."""
+    for bn in nodes:
+        try:
+            area = bn.obj.getArea()
+        except NotImplementedError:
+            continue  # (a 3-D component has no area)
+        agg = Agg(tree, bn, snap)
+        ah = area * bn.obj.getHeight()
+        out.check(_close(ah, agg.vol), "additivity/area-block",
+                  lambda: "%r (symmetry factor %r): getArea()*height=%r, components give volume %r" % (bn.obj, bn.sf, ah, agg.vol))
+
+
+def _drawn_names(present, op):
+    """Nuclide list in the order the case dictates (never sorted by the harness unless the case asks for descending)."""
+    names = []
+    if op.get("all"):
+        k = op["order"][0] % len(present)
+        names = present[k:] + present[:k]
+    else:
+        for i in op["order"]:
+            n = present[i % len(present)]
+            if n not in names:
+                names.append(n)
+    if op.get("desc"):
+        names = sorted(names, reverse=True)
+    return names
+
+
+def _structure_step(out, tree, op, step, snap, recheck):
+    """Steps that are not plain composition setters: block-level density scaling, height change with mass conservation,
+    and geometry changes (temperature, dimension, pitch).  Volumes/areas are read at every level first, then the step is
+    applied, then the documented clauses and the whole additivity battery are asserted on the new state."""
+    from armi.utils import units
+
+    kind = op["op"]
+    blocks_ = tree.by_level["block"]
+    for n in tree.nodes:  # observation: whatever a reader caches is cached now
+        if n.level != "component" and n.area_ok:
+            n.obj.getVolume()
+    for bn in blocks_:
+        try:
+            bn.obj.getArea()
+        except NotImplementedError:
+            pass
+    if kind in ("setTemp", "setDim"):
+        comps = tree.by_level["component"]
+        node = comps[op["t"] % len(comps)]
+        pc = node.parent.obj._pitchDefiningComponent[0]
+        sibs = node.parent.children
+        if node.parent.parent is not None and node.parent.parent.level == "assembly":
+            # inside an assembly only setPitch (all blocks at once) may change the outer size: Assembly.getVolume documents
+            # that every block of an assembly has the same area
+            if node.obj is pc and len(sibs) > 1:
+                node = sibs[(sibs.index(node) + 1) % len(sibs)]
+        elif op.get("outer"):  # a lone block: aim at the outermost component (the one that defines the block's size)
+            node = next((n for n in sibs if n.obj is pc), node)
+        bn = node.parent
+    else:
+        bn = blocks_[op["t"] % len(blocks_)]
+        node = bn
+    b = bn.obj
+    where = "step %d %s on %r" % (step, kind, node.obj)
+    pre = Agg(tree, bn, snap)
+    present = sorted(pre.names)
+    affected = {id(bn)}
+    n_keep = True  # number densities of the other components of the block stay
+    if kind == "adjustDensity":
+        if not present or pre.vol <= 0:
+            return snap
+        names = _drawn_names(present, op)
+        if op.get("extra"):
+            names.insert(len(names) // 2, "XE135" if "XE135" not in pre.names else "KR85")
+        frac = op["frac"]
+        out.label("adjustDensity:unsorted" if names != sorted(names) else "adjustDensity:sorted", "op:adjustDensity@block")
+        out.nontrivial = out.nontrivial or (names != sorted(names) and len(names) >= 2)
+        ret = b.adjustDensity(frac, list(names), returnMass=op["ret"])
+        post_snap = _snapshot(tree)
+        post = Agg(tree, bn, post_snap)
+        floor = 4.0 * units.TRACE_NUMBER_DENSITY * pre.vol / REL  # ("add a little so components remember")
+        emass = []
+        for n in sorted(pre.names | post.names):
+            a0, a1 = pre.atoms.get(n, 0.0), post.atoms.get(n, 0.0)
+            if n in names and a0 != 0.0:
+                emass.append((frac - 1.0) * pre.mass(n))
+                out.check(_close(a1, frac * a0, max(pre.aabs[n], floor)), "edit/adjustDensity-read-back",
+                          lambda: "%s: adjustDensity(%r, %s): %s N %r -> %r, expected %r" % (where, frac, names, n, a0 / pre.vol, a1 / post.vol, frac * a0 / pre.vol))
+            else:
+                out.check(_close(a1, a0, 0.0), "edit/adjustDensity-other-nuclide-changed",
+                          lambda: "%s: adjustDensity(%r, %s): %s N %r -> %r" % (where, frac, names, n, a0 / pre.vol, a1 / post.vol))
+        if op["ret"]:
+            e = math.fsum(emass)
+            out.check(_close(ret, e, max(math.fsum(abs(x) for x in emass), floor * 300.0 / _consts()[0])), "edit/adjustDensity-returned-mass",
+                      lambda: "%s: adjustDensity(%r, %s, returnMass=True) returned %r g, masses changed by %r g" % (where, frac, names, ret, e))
+        else:
+            out.check(ret == 0.0, "edit/adjustDensity-returned-mass", lambda: "%s: returnMass=False returned %r" % (where, ret))
+        n_keep = False
+        vol_same = True
+    elif kind == "setHeight":
+        if bn.parent is not None and bn.parent.level == "group":
+            out.label("skip:setHeight-needs-assembly-or-no-parent")
+            return snap
+        if not present or pre.vol <= 0:
+            return snap
+        if any(ch.obj.is3D for ch in bn.children):
+            out.label("skip:setHeight-block-with-3D-components")  # (their volume is not area x block height)
+            return snap
+        names = _drawn_names(present, op)
+        h0 = b.getHeight()
+        h1 = round(h0 * op["hf"], 4)
+        out.label("op:setHeight@block", "setHeight:all-nuclides" if op.get("all") else "setHeight:some-nuclides")
+        out.nontrivial = out.nontrivial or names != sorted(names)
+        b.setHeight(h1, conserveMass=True, adjustList=list(names))
+        post_snap = _snapshot(tree)
+        post = Agg(tree, bn, post_snap)
+        prismatic = all(_close(post_snap[l][1] * h0, snap[l][1] * h1) for l in bn.leaves)
+        for l in bn.leaves:
+            N0, N1 = snap[l][0], post_snap[l][0]
+            bad = [n for n in sorted(set(N0) | set(N1)) if n not in names and N0.get(n) != N1.get(n)]
+            out.check(not bad, "edit/setHeight-unlisted-nuclide-changed",
+                      lambda: "%s: %r: %s is not in adjustList %s, N %r -> %r" % (where, tree.leaf_nodes[l].obj, bad[0], names, N0.get(bad[0]), N1.get(bad[0])))
+        if prismatic and h1 != h0:
+            floor = 4.0 * units.TRACE_NUMBER_DENSITY * max(pre.vol, post.vol) / REL
+            for n in names:
+                a0, a1 = pre.atoms.get(n, 0.0), post.atoms.get(n, 0.0)
+                out.check(_close(a1, a0, max(pre.aabs.get(n, 0.0), floor)), "edit/setHeight-mass-not-conserved",
+                          lambda: "%s: height %r -> %r conserving %s: %s held %r g, now %r g" % (where, h0, h1, names, n, pre.mass(n), post.mass(n)))
+            if set(names) >= {n for n in present if pre.atoms[n] != 0.0}:
+                m0, m1 = pre.total_mass(), b.getMass()
+                out.check(_close(m1, m0, max(pre.total_mass_abs(), floor)), "edit/setHeight-mass-not-conserved",
+                          lambda: "%s: height %r -> %r conserving every nuclide: block mass %r -> %r g" % (where, h0, h1, m0, m1))
+        n_keep = False
+        vol_same = False
+    elif kind == "setTemp":
+        c = node.obj
+        if type(c.material).__name__ not in _HOT_OK:
+            out.label("skip:setTemp-material-without-expansion-data")
+            return snap
+        out.label("op:setTemp@component", "geom:outermost" if c is b._pitchDefiningComponent[0] else "geom:inner")
+        try:
+            c.setTemperature(op["T"])
+        except RuntimeError as exc:
+            if "Linear expansion percent may not be implemented" not in str(exc):
+                raise
+            out.label("rejected:setTemp")
+        post_snap = _snapshot(tree)
+        vol_same = False
+    elif kind == "setDim":
+        c = node.obj
+        key = next((k for k in _OUTER_DIMS if k in c.DIMENSION_NAMES), None)
+        if key is None or c.dimensionIsLinked(key) or not c.getDimension(key, cold=True):
+            out.label("skip:setDim-no-free-outer-dimension")
+            return snap
+        outer = c is b._pitchDefiningComponent[0]
+        f = 1.0 + 0.03 * op["f"] if outer else 0.96 + 0.06 * op["f"]
+        out.label("op:setDim@component", "geom:outermost" if outer else "geom:inner")
+        c.setDimension(key, round(c.getDimension(key, cold=True) * f, 6))
+        post_snap = _snapshot(tree)
+        vol_same = False
+    else:  # setPitch: every block of the assembly (they share one lattice cell); a lone block otherwise
+        if not hasattr(b, "getDuctOP") or b._pitchDefiningComponent[0] is None:
+            out.label("skip:setPitch-not-supported-here")
+            return snap
+        targets = bn.parent.children if bn.parent is not None and bn.parent.level == "assembly" else [bn]
+        pc = b._pitchDefiningComponent[0]
+        val = round(pc.getDimension("op", cold=True) * (1.0 + 0.03 * op["f"]), 6)
+        out.label("op:setPitch@block", "geom:outermost")
+        for t in targets:
+            t.obj.setPitch(val)
+            affected.add(id(t))
+        post_snap = _snapshot(tree)
+        vol_same = False
+    out.nontrivial = out.nontrivial or kind in ("setTemp", "setDim", "setPitch")
+    # -- nothing outside the block(s) concerned changed; inside, the other components keep their composition
+    for l, leaf in enumerate(tree.leaf_nodes):
+        if id(leaf.parent) not in affected:
+            out.check(post_snap[l] == snap[l], "edit/outside-target-changed",
+                      lambda: "%s: (N,V) of %r in another block changed" % (where, leaf.obj))
+        elif n_keep and leaf is not node:
+            out.check(post_snap[l][0] == snap[l][0], "edit/outside-target-changed",
+                      lambda: "%s: composition of sibling %r changed" % (where, leaf.obj))
+        if vol_same:
+            out.check(post_snap[l][1] == snap[l][1], "edit/volume-changed-by-composition-edit",
+                      lambda: "%s: volume of %r changed" % (where, leaf.obj))
+    recheck(post_snap)
+    return post_snap
+
+
 def _held_check(out, held, where):
     """Dicts the harness handed to armi setters stay the caller's: later edits must not write into them."""
     for obj_, copy_ in held:
@@ -395,7 +587,7 @@ def _held_check(out, held, where):
             copy_.update(obj_)
 
 
-def run_program(out, tree, ops, queries=(), top=None, stats=None, handlers=None):
+def run_program(out, tree, ops, queries=(), top=None, stats=None, handlers=None, recheck=None):
     """Apply each edit to armi, re-read the primitives, check read-back / untouched / additivity after every step."""
     C, _BARN = _consts()
     snap = _snapshot(tree)
@@ -411,6 +603,16 @@ def run_program(out, tree, ops, queries=(), top=None, stats=None, handlers=None)
         if handlers and kind in handlers:
             snap = handlers[kind](op, step, snap)
             _held_check(out, held, "step %d %s" % (step, kind))
+            continue
+        if kind in STRUCT_OPS:
+            if recheck is None:
+                def recheck(sn):
+                    for n_ in tree.nodes:
+                        check_node(out, tree, n_, sn)
+                    check_block_areas(out, tree, tree.by_level["block"], sn)
+            snap = _structure_step(out, tree, op, step, snap, recheck)
+            _held_check(out, held, "step %d %s" % (step, kind))
+            n_done += 1
             continue
         levels = [l for l in ("component", "block", "group", "assembly", "core") if l in tree.by_level]
         if kind == "shareNDs":
@@ -814,6 +1016,29 @@ def _op_strategy(nlevels):
     )
 
 
+_order = st.lists(st.integers(0, 200), min_size=2, max_size=5)
+_struct_op = st.one_of(
+    st.fixed_dictionaries({"op": st.just("adjustDensity"), "t": st.integers(0, 60), "order": _order, "desc": st.booleans(),
+                           "all": st.integers(0, 3).map(lambda x: x == 0), "extra": st.integers(0, 4).map(lambda x: x == 0),
+                           "frac": st.one_of(st.floats(0.05, 3.0).map(lambda x: round(x, 6)), st.sampled_from([0.5, 2.0])),
+                           "ret": st.booleans()}),
+    st.fixed_dictionaries({"op": st.just("setHeight"), "t": st.integers(0, 60), "order": _order, "desc": st.booleans(),
+                           "all": st.booleans(), "hf": st.floats(0.5, 2.0).map(lambda x: round(x, 4))}),
+    st.fixed_dictionaries({"op": st.just("setTemp"), "t": st.integers(0, 60), "outer": st.booleans(),
+                           "T": st.floats(30.0, 800.0).map(lambda x: round(x, 1))}),
+    st.fixed_dictionaries({"op": st.just("setDim"), "t": st.integers(0, 60), "outer": st.booleans(), "f": _unit}),
+    st.fixed_dictionaries({"op": st.just("setPitch"), "t": st.integers(0, 60), "f": _unit}),
+)
+
+
+def _ops(nlevels, extra=None, lo=2, hi=8):
+    """Edit programs: 1 step in 4 is a structure step (explicit selector: one_of would flatten the alternatives)."""
+    alts = [_op_strategy(nlevels), _struct_op] + ([extra] if extra is not None else [])
+    sel = st.integers(0, 9)
+    pick = st.tuples(sel, *alts).map(lambda t: t[2] if t[0] in (0, 1, 2) else (t[3] if len(t) > 3 and t[0] in (3, 4) else t[1]))
+    return st.lists(pick, min_size=lo, max_size=hi)
+
+
 _query = st.one_of(
     st.fixed_dictionaries({"k": st.just("nuc"), "i": st.lists(st.integers(0, 200), min_size=1, max_size=1)}),
     st.fixed_dictionaries({"k": st.just("elem"), "i": st.lists(st.integers(0, 200), min_size=1, max_size=1)}),
@@ -835,6 +1060,7 @@ MATS_ANY_T = ["UZr", "HT9", "Sodium", "UO2", "B4C", "MOX", "Zr", "Graphite", "Le
 MATS_COLD = ["TZM", "Alloy200", "CaH2", "Californium", "Concrete", "Hafnium", "Inconel", "InconelPE16", "Molybdenum", "NZ",
              "SiC", "Tantalum", "ThU", "Thorium", "UThZr"]
 MULTS = [1, 1, 2, 3, 7, 19, 61, 169, 271]
+_HOT_OK = set(MATS_ANY_T) | {"UraniumOxide", "ThoriumOxide"}  # material classes whose temperature may be changed
 
 
 def _comp_spec():
@@ -880,7 +1106,7 @@ def blocks_strategy(tier):
         "blocks": st.lists(_block_spec(), min_size=1, max_size=2),
         "queries": st.lists(_query, min_size=1, max_size=5),
         "sample": st.lists(st.integers(0, 200), min_size=1, max_size=3),
-        "ops": st.one_of(st.lists(_op_strategy(3), min_size=2, max_size=8), st.lists(_op_strategy(3), min_size=4, max_size=8)),
+        "ops": st.one_of(_ops(3, lo=2), _ops(3, lo=4)),
     })
 
 
@@ -1017,31 +1243,42 @@ def blocks_execute(case):
     snap = _snapshot(tree)
     nt_geom = False
     for bn, bs in zip(tree.by_level["block"], case["blocks"]):
-        b = bn.obj
-        ncomp = len(bn.children)
-        nt_geom = nt_geom or (ncomp >= 3 and bs["derived"]["on"] and any(c["mult"] > 1 for c in bs["comps"]))
+        nt_geom = nt_geom or (len(bn.children) >= 3 and bs["derived"]["on"] and any(c["mult"] > 1 for c in bs["comps"]))
         out.check(bn.sf == 1.0, "symmetry/factor", "a block outside any core has symmetry factor %r" % bn.sf)
-        h = bs["height"]
-        # volume of each shaped component from its own dimensions; derived coolant fills the rest of the cell
-        for cn in bn.children:
-            ev = _shape_volume(cn.obj, h)
-            if ev is not None:
-                gv = snap[cn.leaves[0]][1]
-                out.check(_close(gv, ev), "volume/shape-formula",
-                          lambda: "%r: getVolume()=%r, %s dimensions give %r" % (cn.obj, gv, type(cn.obj).__name__, ev))
-        if bs["derived"]["on"]:
-            maxv = b.getMaxArea() * h
-            pitch = b.getPitch()
-            cell = (math.sqrt(3.0) / 2.0 * pitch * pitch) if bs["geom"] == "hex" else pitch[0] * pitch[1]
-            tot = math.fsum(snap[l][1] for l in bn.leaves)
-            out.check(_close(tot, cell * h) and _close(maxv, cell * h), "volume/derived-shape-fills-cell",
-                      lambda: "%r: components sum to %r, lattice cell volume %r (getMaxArea*h %r)" % (b, tot, cell * h, maxv))
+
+    def geometry(sn):
+        for bn, bs in zip(tree.by_level["block"], case["blocks"]):
+            b = bn.obj
+            h = b.getHeight()
+            # volume of each shaped component from its own dimensions; derived coolant fills the rest of the cell
+            for cn in bn.children:
+                ev = _shape_volume(cn.obj, h)
+                if ev is not None:
+                    gv = sn[cn.leaves[0]][1]
+                    out.check(_close(gv, ev), "volume/shape-formula",
+                              lambda: "%r: getVolume()=%r, %s dimensions give %r" % (cn.obj, gv, type(cn.obj).__name__, ev))
+            if bs["derived"]["on"]:
+                maxv = b.getMaxArea() * h
+                pitch = b.getPitch()
+                cell = (math.sqrt(3.0) / 2.0 * pitch * pitch) if bs["geom"] == "hex" else pitch[0] * pitch[1]
+                tot = math.fsum(sn[l][1] for l in bn.leaves)
+                out.check(_close(tot, cell * h) and _close(maxv, cell * h), "volume/derived-shape-fills-cell",
+                          lambda: "%r: components sum to %r, lattice cell volume %r (getMaxArea*h %r)" % (b, tot, cell * h, maxv))
+        check_block_areas(out, tree, tree.by_level["block"], sn)
+
+    def recheck(sn):
+        geometry(sn)
+        for n in tree.nodes:
+            check_node(out, tree, n, sn)
+
+    geometry(snap)
     out.nontrivial = nt_geom
     queries = _queries(tree, root, snap, case["queries"])
     for n in tree.nodes:
         check_node(out, tree, n, snap, full=True, queries=queries, sample=case["sample"])
     if case["ops"]:
-        snap = run_program(out, tree, case["ops"])
+        snap = run_program(out, tree, case["ops"], recheck=recheck)
+        geometry(snap)
         queries = _queries(tree, root, snap, case["queries"])
         for n in tree.nodes:
             check_node(out, tree, n, snap, full=True, queries=queries, sample=case["sample"])
@@ -1065,9 +1302,8 @@ def reactors_strategy(tier):
         "known": st.just(False) if EXCLUDE_KNOWN.get(SIG_CART_FULL) else st.booleans(),
         "queries": st.lists(_query, min_size=1, max_size=4),
         "sample": st.lists(st.integers(0, 200), min_size=1, max_size=2),
-        # (one_of flattens nested alternatives, so the share of swaps is fixed by an explicit selector: 1 in 5)
-        "ops": st.lists(st.tuples(st.integers(0, 4), _op_strategy(4), _swap_op).map(lambda t: t[2] if t[0] == 0 else t[1]),
-                        min_size=2, max_size=7),
+        # (explicit selector: 3 in 10 structure steps, 2 in 10 swaps, the rest composition setters)
+        "ops": _ops(4, extra=_swap_op, lo=2, hi=7),
     })
 
 
@@ -1241,8 +1477,14 @@ def reactors_execute(case):
         block_areas(post, n1.children + n2.children)
         return post
 
+    def recheck(sn):
+        for n in tree.nodes:
+            if n.level != "component":
+                check_node(out, tree, n, sn)
+        block_areas(sn, tree.by_level["block"])
+
     stats = {"sf": set()}
-    snap = run_program(out, tree, case["ops"], stats=stats, handlers={"swap": swap})
+    snap = run_program(out, tree, case["ops"], stats=stats, handlers={"swap": swap}, recheck=recheck)
     block_areas(snap, tree.by_level["block"])
     if any(s != 1.0 for s in stats["sf"]):
         out.label("edited-under-symmetry-cut")
